@@ -70,16 +70,26 @@ pub fn op_hist(args: &[&str]) -> String {
         let valid: Vec<String> = if kind == "empty" {
             vec![]
         } else {
-            let (v, ob_back) = with_sync_store!(
-                if kind == "preIo" { "preMem" } else if kind == "postIo" { "postMem" } else { kind },
-                root,
-                tree,
-                std::mem::take(&mut ob),
-                |o| sync::valid_ranges(&o, &target[..], &all)
+            let vkind = if kind == "preIo" { "preMem" } else if kind == "postIo" { "postMem" } else { kind };
+            let fmt = |r: std::io::Result<std::ops::Range<bao_tree::ChunkNum>>| r.map(|r| format!("{}:{}", r.start.0, r.end.0)).unwrap_or_else(|e| io_err(&e));
+            // the validator of the same flavour as the history (sync iterator / async stream)
+            let (v, ob_back) = if fl == "sync" {
+                with_sync_store!(vkind, root, tree, std::mem::take(&mut ob), |o| sync::valid_ranges(&o, &target[..], &all)
                     .into_iter()
-                    .map(|r| r.map(|r| format!("{}:{}", r.start.0, r.end.0)).unwrap_or_else(|e| io_err(&e)))
-                    .collect::<Vec<String>>()
-            );
+                    .map(fmt)
+                    .collect::<Vec<String>>())
+            } else {
+                use futures_lite::StreamExt;
+                let d = bytes::Bytes::from(target.clone());
+                with_fsm_store!(vkind, root, tree, std::mem::take(&mut ob), |o| block_on(async {
+                    let mut res = Vec::new();
+                    let mut s = std::pin::pin!(fsm::valid_ranges(&mut o, d.clone(), &all));
+                    while let Some(r) = s.next().await {
+                        res.push(fmt(r));
+                    }
+                    res
+                }))
+            };
             ob = ob_back;
             v
         };
